@@ -159,7 +159,7 @@ class EmitBody(_Base):
     name = 'Stream._emit[metadata=list]'
     # the fan-out is on the path of every element of every pipeline: each property about what is delivered, when and with which
     # references depends on it
-    props = ['C01', 'C02', 'C03', 'C04', 'C05', 'C08', 'C09', 'C10', 'C13', 'C14', 'C15', 'C16']
+    props = ['C01', 'C02', 'C03', 'C04', 'C05', 'C08', 'C09', 'C10', 'C13', 'C14', 'C15', 'C16', 'C17', 'C18', 'C20']
     md_none = False
     assumptions = ('OrderedWeakrefSet: len() and iteration agree and iterate live members in first-insertion order '
                    '(trusted; no garbage collection between len() and list())',
